@@ -43,7 +43,7 @@ PROPS["C01"] = _hist(
     lambda f: f["pages"] >= 8 and 0 < f["crawled"] < f["pages"],
     ["C01_pages_compared", "reports_checked"],
     ["LRUTrie.add_page", "LRUTrie.add_lru", "LRUTrie.pages_iter", "LRUTrie.count_pages", "LRUTrie.count_crawled_pages"],
-    Q(160), T(2400),
+    Q(640), T(2400),
 )
 
 PROPS["C02"] = _hist(
@@ -58,7 +58,7 @@ PROPS["C02"] = _hist(
     lambda f: f["nodes"] >= 10,
     ["C02_lookups", "C02_absent_probes", "decodes"],
     ["LRUTrie.lru_node", "LRUTrie.windup_lru", "LRUTrie.dfs_iter", "LRUTrieNode.read", "detailed_chunks_iter"],
-    Q(160), T(2400),
+    Q(480), T(2400),
 )
 
 PROPS["C03"] = _hist(
@@ -73,12 +73,12 @@ PROPS["C03"] = _hist(
     lambda f: f["pairs"] >= 6 and f["multi"] >= 1 and f["self"] >= 1,
     ["C03_page_link_answers", "C03_degree_answers", "C03_link_pairs_compared"],
     ["LinkStore.add_links", "Traph.add_links", "Traph.index_batch_crawl_iter", "Traph.get_page_links", "Traph.links_iter"],
-    Q(140), T(2000),
+    Q(420), T(2000),
 )
 
 PROPS["C04"] = _hist(
     "C04", ["C04"],
-    dict(classes=("real", "real", "deep", "bin"), pool=(10, 20, 30),
+    dict(classes=("real", "real", "deep", "bin", "long"), long=True, pool=(10, 20, 30),
          weights={"add_page": 4, "add_links": 2, "create": 6, "delete": 3, "addp": 5, "rmp": 3, "mvp": 3, "rule": 1, "rmrule": 1, "reopen": 1}),
     "prefix-edit-heavy histories (create / delete incl. subsets / add / remove / move, automatic and rule-driven creation) with "
     "nested, sibling and same-webentity-nested prefixes; every audit resolves pages, stored stem-prefixes and absent neighbours "
@@ -88,7 +88,7 @@ PROPS["C04"] = _hist(
     lambda f: f["we"] >= 3 and f["nested"] >= 1,
     ["C04_resolutions", "C04_resolutions_none"],
     ["LRUTrie.follow_lru", "Traph.retrieve_webentity", "Traph.retrieve_prefix", "Traph.add_prefix_to_webentity", "Traph.move_prefix_to_webentity"],
-    Q(160), T(2400),
+    Q(640), T(2400),
 )
 
 PROPS["C05"] = _hist(
@@ -101,12 +101,12 @@ PROPS["C05"] = _hist(
     lambda f: f["we"] >= 3 and f["pages"] >= 8 and f["nested"] >= 1,
     ["C05_webentities"],
     ["LRUTrie.webentity_dfs_iter", "Traph.get_webentity_pages_iter", "Traph.get_webentity_crawled_pages_iter"],
-    Q(160), T(2400),
+    Q(640), T(2400),
 )
 
 PROPS["C06"] = _hist(
     "C06", ["C06", "C04"],
-    dict(classes=("real", "real", "deep"), pool=(12, 24, 40), rule_prob=0.9,
+    dict(classes=("real", "real", "deep", "long"), long=True, pool=(12, 24, 40), rule_prob=0.9,
          weights={"add_page": 8, "add_pages": 2, "add_links": 3, "batch": 2, "create": 2, "delete": 2, "addp": 1, "rmp": 1,
                   "rule": 4, "rmrule": 2, "reopen": 1}),
     "histories under every default rule x 0-3 anchored rules (path1-4, subdomain) with rule install/remove/replace churn on "
@@ -117,7 +117,7 @@ PROPS["C06"] = _hist(
     lambda f: f["auto_groups"] >= 2 and f["pages"] >= 5,
     ["C06_potential", "C06_resolves_after_insert", "reports_checked"],
     ["Traph.__add_page", "Traph.get_potential_prefix", "Traph.add_webentity_creation_rule_iter", "LRUTrieWalkHistory.rules_to_apply", "lru_variations"],
-    Q(160), T(2400),
+    Q(640), T(2400),
 )
 
 PROPS["C07"] = _hist(
@@ -131,20 +131,20 @@ PROPS["C07"] = _hist(
     lambda f: f["we"] >= 3 and f["pairs"] >= 6,
     ["C07_networks", "C07_transposes"],
     ["LRUTrie.dfs_with_webentity_iter", "Traph.get_webentities_links_iter", "Traph.get_webentities_links_slow_iter", "LRUTrie.windup_lru_for_webentity"],
-    Q(140), T(2000),
+    Q(560), T(2000),
 )
 
 PROPS["C08"] = _hist(
     "C08", ["C08"],
-    dict(classes=("real", "real", "deep", "bin"), pool=(10, 20, 30),
-         weights={"add_page": 3, "add_links": 7, "batch": 4, "create": 4, "delete": 2, "addp": 3, "rmp": 2, "mvp": 1, "rule": 1}),
+    dict(classes=("real", "real", "deep", "bin"), pool=(10, 20, 30), rule_prob=0.8,
+         weights={"add_page": 3, "add_links": 7, "batch": 4, "create": 4, "delete": 2, "addp": 3, "rmp": 2, "mvp": 1, "rule": 2}),
     "same state space as C07; for every webentity (prefixes shuffled) get_webentity_pagelinks under all 7 switch settings is "
     "compared as a multiset of (source,target,weight) with the model, and the cited / citing webentity sets with the "
     "resolutions of the other link ends. Non-trivial: >= 3 webentities and >= 6 link pairs.",
     lambda f: f["we"] >= 3 and f["pairs"] >= 6,
     ["C08_pagelink_answers", "C08_cited_sets"],
     ["Traph.get_webentity_pagelinks_iter", "Traph.get_webentity_outlinks_iter", "Traph.get_webentity_inlinks_iter"],
-    Q(140), T(2000),
+    Q(420), T(2000),
 )
 
 PROPS["C13"] = _hist(
@@ -158,7 +158,7 @@ PROPS["C13"] = _hist(
     lambda f: f["we"] >= 3 and f["nested"] >= 2,
     ["C13_webentities", "C13_children_expected"],
     ["LRUTrie.dfs_iter", "Traph.get_webentity_child_webentities_iter", "Traph.get_webentity_parent_webentities", "LRUTrie.add_lru"],
-    Q(160), T(2400),
+    Q(640), T(2400),
 )
 
 PROPS["C19"] = _hist(
@@ -172,7 +172,7 @@ PROPS["C19"] = _hist(
     lambda f: f["long"] >= 1 and f["links"] >= 1,
     ["C19_per_op_sizes", "C19_accountings", "C19_metrics"],
     ["LRUTrieNode.write", "detailed_chunks_iter", "LRUTrie.metrics", "LinkStore.count_links"],
-    Q(160), T(2400),
+    Q(640), T(2400),
 )
 
 PROPS["C20"] = _hist(
@@ -185,7 +185,7 @@ PROPS["C20"] = _hist(
     lambda f: f["we"] >= 2 and f["pages"] >= 6 and f["pairs"] >= 4,
     ["C20_answers"],
     ["Traph.get_webentity_most_linked_pages_iter", "LinkStore.weighted_link_nodes_iter"],
-    Q(120), T(1600),
+    Q(360), T(1600),
 )
 
 PROPS["C12"] = _hist(
@@ -200,7 +200,7 @@ PROPS["C12"] = _hist(
     lambda f: f["auto_groups"] >= 3 and (f["reopens"] >= 1 or f["deletes"] >= 1),
     ["ids_checked", "reopens"],
     ["Traph.__generated_web_entity_id", "LRUTrieHeader.write", "LRUTrieHeader.increment_last_webentity_id", "Traph.__add_prefixes"],
-    Q(200), T(3000),
+    Q(800), T(3000),
 )
 
 def _paging(prop, profile, rule, nontrivial, deciding, anchors, quick, thorough):
